@@ -207,6 +207,10 @@ def gen_decimal_value(rng, ai, mode):
     if len(s) - d <= 0 or s[:len(s) - d].startswith('0'):
         tags.add('decimal-leading-zeros')
     value = decimal.Decimal(txt if not txt.startswith('.') else '0' + txt)
+    if 'E' in str(value):
+        tags.add('decimal-exponent-notation')
+    elif len(str(value)) > c[2] + 1:
+        tags.add('decimal-text-longer-than-field')
     text = str(d) + (cur or '') + s
     if cur is not None:
         return (cur, value), text, tags
